@@ -22,6 +22,14 @@ from sim.seams import SimClock
 PROP = 'C18'
 HASH_SENSITIVE = False
 NAMES = ['a', 'b', 'c', 'd']
+
+
+def _names(s):
+    """parameter names of a generated function; its last defaulted parameter may be called `axis`"""
+    names = NAMES[:s['npos']]
+    if s.get('axis_param') and s['ndef'] >= 1 and s['npos'] >= 2:
+        names = names[:-1] + ['axis']
+    return names
 SCALARS = [0, 1, 2, 3, 5, 13, 's', 't', None]
 CONTAINERS = [[1, 2], [], {'k': [1]}, [[3]], {'p': 1, 'q': 2}]
 TRY_VALUES = ['none', 'nan', 'zero', 'false', 'true', 'list', 'dict']
@@ -58,6 +66,8 @@ def generate(st):
             s['arm'] = 'on13' if (faulty and sw.random() < 0.7) else 'never'
         # what f returns: usually a canonical record of what it received; for some argument values a falsy result
         s['ret'] = sw.choice(['canon', 'canon', 'none_some', 'zero_some', 'emptylist_some'])
+        s['bare'] = sw.random() < 0.3          # raises an exception that carries no message
+        s['axis_param'] = sw.random() < 0.06   # a parameter that happens to be called axis (the name loops uses itself)
         funcs.append(s)
     decs = ['try', 'back', 'kws', 'cache', 'loop', 'pd2np']
     if retry:
@@ -96,6 +106,8 @@ def generate(st):
             if retry or g.random() < 0.1:
                 d['repeat'] = g.choice([0, 1, 2, 3])
                 d['sleep'] = g.choice([0, 0, 1, 60])
+            if g.random() < 0.2:
+                d['verbose'] = True
             return d
         if t == 'loop':
             return {'t': 'loop', 'types': g.choice([['list'], ['list', 'tuple'], ['dict'], ['list', 'tuple', 'dict']])}
@@ -112,7 +124,7 @@ def generate(st):
         if s['varargs'] and provided == npos and g.random() < 0.6:
             p = provided
         pos = [value(first=(i == 0)) for i in range(p)]
-        names = NAMES[p:provided]
+        names = _names(s)[p:provided]
         # optional parameters may also be skipped individually when passed by name
         kw = []
         for i, nm in enumerate(names):
@@ -200,7 +212,7 @@ def _sig_src(s):
     npos, ndef = s['npos'], s['ndef']
     parts = []
     for i in range(npos):
-        nm = NAMES[i]
+        nm = _names(s)[i]
         parts.append(nm if i < npos - ndef else '%s=%d' % (nm, 100 + i))
     if s['varargs']:
         parts.append('*args')
@@ -210,7 +222,7 @@ def _sig_src(s):
 
 
 def _make_funcs(fid, s, ledger):
-    names = NAMES[:s['npos']]
+    names = _names(s)
     collect = '(%s)' % ''.join('%s, ' % n for n in names)
     va = 'tuple(args)' if s['varargs'] else '()'
     kwv = 'tuple(sorted(kw.items(), key=lambda kv: kv[0]))' if s['varkw'] else '()'
@@ -230,6 +242,8 @@ def _make_funcs(fid, s, ledger):
             raised = True
         ledger.append({'fid': fid, 'raised': raised, 'n': state['calls']})
         if raised:
+            if s.get('bare'):
+                raise SimFError()
             raise SimFError('f%d armed' % fid)
         return _ret(s, fid, tuple(named), tuple(varargs), tuple(kwitems))
     ns = {'body': body}
@@ -262,7 +276,7 @@ def _expected_value(fid, s, twin, args, kwargs):
     except TypeError:
         return INVALID
     ba.apply_defaults()
-    named = tuple(ba.arguments[n] for n in NAMES[:s['npos']])
+    named = tuple(ba.arguments[n] for n in _names(s))
     varargs = tuple(ba.arguments.get('args', ())) if s['varargs'] else ()
     kwitems = tuple(sorted(ba.arguments.get('kw', {}).items(), key=lambda kv: kv[0])) if s['varkw'] else ()
     vals = list(named) + list(varargs) + [v for _, v in kwitems]
@@ -326,8 +340,9 @@ def execute(trace, ctx=None):
     def build(dec_, target):
         t = dec_['t']
         if t == 'try':
-            if 'repeat' in dec_ or dec_['value'] == 'dict':
-                return try_value(repeat=dec_.get('repeat', 0), sleep=dec_.get('sleep', 0), value=_copy.copy(FALLBACK[dec_['value']]))(target)
+            if 'repeat' in dec_ or dec_['value'] == 'dict' or dec_.get('verbose'):
+                return try_value(repeat=dec_.get('repeat', 0), sleep=dec_.get('sleep', 0), value=_copy.copy(FALLBACK[dec_['value']]),
+                                 verbose=True if dec_.get('verbose') else None)(target)
             return TRY[dec_['value']](target)
         if t == 'back':
             return try_back(target)
@@ -374,7 +389,7 @@ def execute(trace, ctx=None):
     def descend(o, args, kwargs):
         """(args, kwargs) as seen at each layer and at the base, following the documented behaviour of each decorator"""
         s = funcs[o['fid']][2]
-        declared = NAMES[:s['npos']]
+        declared = _names(s)
         seen = []
         a, kw = list(args), dict(kwargs)
         for l in o['chain']:
@@ -396,7 +411,7 @@ def execute(trace, ctx=None):
         exp = _expected_value(fid, s, twin, ba, bkw)
         if exp is INVALID:
             return 'invalid'
-        declared = NAMES[:s['npos']]
+        declared = _names(s)
         # try_back's fallback is "the first argument": undefined when none is passed at that layer
         types = [l['t'] for l in o['chain']]
         for (a, kw), l in zip(seen, o['chain']):
@@ -488,6 +503,8 @@ def execute(trace, ctx=None):
             return 'ok'
         if not _deep_same(r, want):
             cls = 'kwargs-support' if 'kws' in types and (set(kwargs) - set(declared)) else 'not-transparent'
+            if 'loop' in types and 'axis' in declared and 'axis' in seen[types.index('loop')][1]:
+                cls = 'loop-swallows-axis-keyword'
             raise Violation(cls, 'object%s called with %r %r returned %r, f returns %r' % (types, args, kwargs, r, want), k)
         if n_bad:
             raise Violation('harness', 'f raised although the model says it does not', k)
@@ -591,7 +608,7 @@ def execute(trace, ctx=None):
                     types = [l['t'] for l in o['chain']]
                     if 'cache' not in types and not retry:
                         # call_with_callargs(f, callargs) == f(*a, **k): it passes every named parameter positionally
-                        pos2 = [want[n] for n in NAMES[:s['npos']]] + list(want.get('args', ()))
+                        pos2 = [want[n] for n in _names(s)] + list(want.get('args', ()))
                         kw2 = dict(want.get('kw', {}))
                         r = do_call(o, pos2, kw2, k, how=lambda: call_with_callargs(o['real'], got))
                         if r == 'ok':
